@@ -230,6 +230,14 @@ def _check_fresh_decorator_arg(ctx, f, arg, call):
 
     defs = c05._assignments_to(f, arg.id)
     ok = len(defs) == 1 and isinstance(defs[0][1], ast.Call) and isinstance(defs[0][1].func, ast.Attribute) and defs[0][1].func.attr == "get_ast"
+    if not ok and len(defs) == 1 and isinstance(defs[0][1], ast.Call):
+        # a helper method that returns the fresh decorator
+        t = ctx.model.resolve_call(f, defs[0][1])
+        if t.kind == "func" and t.target.cls is f.cls:
+            rets = [x.value for x in walk_scope(t.target.node) if isinstance(x, ast.Return)]
+            if len(rets) == 1 and isinstance(rets[0], ast.Name):
+                d2 = c05._assignments_to(t.target, rets[0].id)
+                ok = len(d2) == 1 and isinstance(d2[0][1], ast.Call) and isinstance(d2[0][1].func, ast.Attribute) and d2[0][1].func.attr == "get_ast"
     if not ok:
         ctx.bad("C10.2", f, call, f"the inserted decorator `{arg.id}` is not (only) the result of get_ast() evaluated in this call")
     else:
@@ -343,7 +351,15 @@ def check_locations(ctx):
                 a, b = call.args[0], call.args[1]
                 fresh = isinstance(a, ast.Name) and a.id != node_param and all(
                     isinstance(v, ast.Call) and isinstance(v.func, ast.Attribute) and v.func.attr == "get_ast" for _, v, _ in c05._assignments_to(f, a.id))
-                if fresh and isinstance(b, ast.Name) and b.id == node_param:
+                b_is_node = isinstance(b, ast.Name) and b.id == node_param
+                if b_is_node and not name.startswith("visit_"):
+                    # a helper: its node parameter must be the visited node at every call site
+                    from ..callgraph import CallGraph, trace_value
+
+                    cg_ = CallGraph(m)
+                    srcs = trace_value(cg_, f, b)
+                    b_is_node = bool(srcs) and all(fn_.name.startswith("visit_") and isinstance(e, ast.Name) and len(fn_.params) > 1 and e.id == fn_.params[1] for fn_, e in srcs)
+                if fresh and b_is_node:
                     ctx.ok("C10.3", f.qualname, f"copy_location({a.id}, {b.id}): position copied from the visited node onto the fresh decorator")
                 else:
                     ctx.bad("C10.3", f, call, f"ast.copy_location({norm(a)}, {norm(b)}) writes the position of an existing node (the first argument "
@@ -356,21 +372,57 @@ def check_locations(ctx):
                 if isinstance(root, ast.Name) and root.id == node_param:
                     ctx.bad("C10.3", f, n_, "a position attribute of the visited node is assigned")
     ctx.counters["copy_location_sites"] = n
-    ctx.floor("C10.3", "copy_location_sites", 2)
+    ctx.floor("C10.3", "copy_location_sites", 1)
 
 
 # ------------------------------------------------------------------------ C10.4
 def check_traversal(ctx):
     m = ctx.model
     c = transformer(ctx)
+    # helper methods that (on every normal path) call generic_visit on their node parameter and return it
+    def analyse_method(f, helpers):
+        node_param = f.params[1]
+        g = NoReturn(m).cfg(f)
+
+        def is_gv(call):
+            if not (isinstance(call.func, ast.Attribute) and isinstance(call.func.value, ast.Name) and call.func.value.id == f.params[0]
+                    and len(call.args) == 1 and isinstance(call.args[0], ast.Name) and call.args[0].id == node_param):
+                return False
+            return call.func.attr == "generic_visit" or call.func.attr in helpers
+
+        def transfer(node, st, kind, succ):
+            if any(is_gv(c_) for c_ in node_calls(node)) and kind in NORMAL:
+                return (min(st + 1, 2),)
+            return (st,)
+
+        fl = Flow(g, 0, transfer)
+        always = all(stt >= 1 for stt in fl.states_at(g.exit)) and bool(fl.states_at(g.exit))
+        rets_ok = True
+        for n in g.live_nodes():
+            if n.kind == "return":
+                v = n.ast.value
+                if isinstance(v, ast.Name) and v.id == node_param:
+                    continue
+                if isinstance(v, ast.Call) and is_gv(v) and v.func.attr in helpers:
+                    continue
+                rets_ok = False
+        return always and rets_ok and g.falloff.id not in g.reachable
+
+    helpers = set()
+    for hname, hf in c.methods.items():
+        if not hname.startswith("visit") and hname not in ("__init__", "generic_visit") and len(hf.params) == 2:
+            if analyse_method(hf, set()):
+                helpers.add(hname)
     for name in sorted(EXPECTED_VISITS & set(c.methods)):
         f = c.methods[name]
         node_param = f.params[1]
         g = NoReturn(m).cfg(f)
 
         def is_gv(call):
-            return (isinstance(call.func, ast.Attribute) and call.func.attr == "generic_visit" and isinstance(call.func.value, ast.Name)
-                    and call.func.value.id == f.params[0] and len(call.args) == 1 and isinstance(call.args[0], ast.Name) and call.args[0].id == node_param)
+            if not (isinstance(call.func, ast.Attribute) and isinstance(call.func.value, ast.Name) and call.func.value.id == f.params[0]
+                    and len(call.args) == 1 and isinstance(call.args[0], ast.Name) and call.args[0].id == node_param):
+                return False
+            return call.func.attr == "generic_visit" or call.func.attr in helpers
 
         def transfer(node, st, kind, succ):
             if any(is_gv(c_) for c_ in node_calls(node)) and kind in NORMAL:
@@ -387,7 +439,8 @@ def check_traversal(ctx):
         for n in g.live_nodes():
             if n.kind == "return":
                 v = n.ast.value
-                if not (isinstance(v, ast.Name) and v.id == node_param):
+                via_helper = isinstance(v, ast.Call) and is_gv(v) and v.func.attr in helpers
+                if not (isinstance(v, ast.Name) and v.id == node_param) and not via_helper:
                     ok = False
                     ctx.bad("C10.4", f, n.ast, f"{name} returns `{norm(v)}` instead of the visited node itself")
         if g.falloff.id in g.reachable:
